@@ -204,7 +204,12 @@ def worker(ctx):
         cfg = pycommon.cfg_for_case(rng, case_id)
         cfg.msg_bits = min(cfg.msg_bits, 2000)
         cfg.p_transitive_ref = 0.0  # `b.c.M` has no well-formed Go rendering (C10 known finding go-transitive-import-reference, judged there)
+        if case_id % 4 == 2:
+            cfg.p_same_short_name, cfg.p_nested = 0.6, max(cfg.p_nested, 0.5)
         root = gen.gen_schema(rng, cfg)
+        if case_id % 4 == 1:
+            gen.add_same_name_shapes(root, rng, ext_ok=cfg.extensible)
+            res.count("cases_with_same_short_name_shapes")
         d = ctx.casedir(case_id)
         wit = {"case": case_id, "shard": ctx.shard}
         try:
